@@ -52,6 +52,16 @@ class Tracer:
         return self.local
 
 
+def held_dispatch(ov):
+    """the dispatch function as a user holds it (`f = ovld(...)` binds the function object once: a module global, a
+    class attribute): the first one this Ovld ever had, whatever `ov.dispatch` is bound to later"""
+    h = ov.__dict__.get("_verif_held")
+    if h is None and hasattr(ov, "dispatch"):
+        h = ov.dispatch
+        ov.__dict__["_verif_held"] = h
+    return h
+
+
 def mk_fn(name, body, params, glb, readable=True):
     src = f"def {name}({params}):\n    {body}\n"
     _uid[0] += 1
@@ -78,6 +88,15 @@ class Scenario:
                 # the class the hook recognises is also a subclass of a class with a valid method: a resolution that
                 # loses the hook's type still finds something (and would cache it)
                 base = (self.classes[rng.randrange(i)],)
+            if 2 <= i < k and bad_kind is None and rng.random() < 0.4:
+                # two bases now and then: the methods of both are applicable to the class and neither dominates the
+                # other (a tied rank; the ranking's bookkeeping of candidates it has set aside is then in use)
+                two = tuple(rng.sample(self.classes[:i], 2))
+                try:
+                    type("S", two, {})
+                    base = two
+                except TypeError:
+                    pass
             self.classes.append(type(f"B{i}", base, {}))
         self.raise_flag = [False]
         glb = {"call_next": call_next, "recurse": recurse, "__name__": "verif_build"}
@@ -151,6 +170,7 @@ class Scenario:
         ov = Ovld()
         for t in tags:
             ov.register(self.fn_of(t))
+        held_dispatch(ov)
         return ov
 
     def probes(self):
@@ -179,7 +199,7 @@ def invoke(f, arg):
 
 def call(ov, arg, route="obj"):
     try:
-        f = ov if route == "obj" or not hasattr(ov, "dispatch") else ov.dispatch
+        f = ov if route == "obj" or not hasattr(ov, "dispatch") else held_dispatch(ov)
         if isinstance(arg, tuple) and arg and arg[0] == "call":
             r = f(*arg[1], **arg[2])
         else:
@@ -568,6 +588,20 @@ def worker(payload):
     if tunsafe:
         # C18_tree proves there is none: a model state the driver calls unsafe contradicts the theorem
         out["corr"].append({"layer": "T", "what": "the driver reports an unsafe model state although C18_tree excludes it", "detail": tunsafe[0]})
+    # ... and of a function with several linked variants (layer U, Model/BuildForest.lean, Props/C18Forest.lean)
+    import corr_u
+
+    ustats, udiffs, uunsafe, uviols = corr_u.run(seed + 3, max(6, n // 2))
+    out["corr"].extend(udiffs[:3])
+    for kx, v in ustats.items():
+        out["hist"]["layer U: " + kx] = v
+    if uunsafe:
+        out["corr"].append({"layer": "U", "what": "the driver reports an unsafe model state although C18_forest excludes it", "detail": uunsafe[0]})
+    o18 = orc("C18")
+    o18["n"] += ustats["ops"]
+    o18["nontrivial"] += ustats["interrupts inside a variant's build"] + ustats["natural"]
+    for v in uviols:
+        o18["viol"].append({"kind": "forest", **v})
     if opts.get("sweep"):
         # thorough tier: for a few scenarios, EVERY executed library line of first-use build, rebuild and cache-miss
         # resolution is a failure point
